@@ -1,11 +1,13 @@
 import NavisModel.Model.Nblast
+import NavisModel.Model.DpCache
 import NavisModel.Gen.Smat
+import NavisModel.Gen.DpTree
 import NavisModel.Drv.Proto
 /-! Line protocol for C06 (NBLAST scoring).  Numbers travel as exact rationals `n` or `n/d`
 (the harness converts doubles with `float.as_integer_ratio`), `inf`/`-inf`, `s<rat>` = square root of
 a radicand, `nan`.  Top-level fields are separated by `|`. -/
 namespace Navis.Drv.C06
-open Navis.Nblast Navis.Proto
+open Navis.Nblast Navis.Proto Navis.DpCache
 
 def parseRat (s : String) : Option Rat :=
   match (trim s).splitOn "/" with
@@ -140,6 +142,40 @@ def parseImplVals (s : String) : Option (List (List (Option Rat))) :=
 def showLabels (f : Frame) : String :=
   ",".intercalate (f.rows.map fun (i, k) => if k.isEmpty then toString i else s!"{i}:{k}") ++ "#" ++ showInts f.cols
 
+
+/-! kd-tree cache histories (geometry = version number) -/
+
+def parseMethod (s : String) : Option Method :=
+  Method.all.find? fun m => m.name == trim s
+
+def parseEv (s : String) : Option (Ev Nat) :=
+  match words s with
+  | ["u", i] => (i.toNat?).map .use
+  | ["v", i] => (i.toNat?).map .vect
+  | ["sv", i] => (i.toNat?).map .setVect
+  | ["c", i] => (i.toNat?).map .copy
+  | ["p", k, i] => do let k ← parseBool k; let i ← i.toNat?; pure (.pickle k i)
+  | ["m", m, i, g] => do let m ← parseMethod m; let i ← i.toNat?; let g ← g.toNat?; pure (.mutate m i g)
+  | _ => none
+
+/-- per event: the logged `(used, current)` pairs -/
+def runLog (inv : Method → Bool) : List (Obj Nat) → List (Ev Nat) → List (List (Nat × Nat))
+  | _, [] => []
+  | s, e :: es => let r := step inv s e; r.2 :: runLog inv r.1 es
+
+def showObj (o : Obj Nat) : String :=
+  s!"{o.geo}:{match o.tree with | some t => toString t | none => "-"}:{if o.lazy then 1 else 0}"
+
+/-! nblast_smart cells -/
+
+def parseMask (s : String) : Option (List (List Bool)) :=
+  (sepList ";" s).mapM fun r => (sepList "," r).mapM parseBool
+
+def smartVals (fn : ScoreFn) (cfg : Cfg) (mode : Mode) (q t : List Dotprops) (mask : List (List Bool)) :
+    Option (List (List Rat)) :=
+  allSome ((q.zipIdx).map fun (qn, i) => allSome ((t.zipIdx).map fun (tn, j) =>
+    (smartCell fn cfg mode (((mask[i]?).bind (·[j]?)).getD false) qn.pts tn.pts).map Score.fwd))
+
 def run (cmd rest : String) : Option String :=
   let fields := (rest.splitOn "|").map trim
   match cmd, fields with
@@ -244,6 +280,51 @@ def run (cmd rest : String) : Option String :=
             if diagExact && r' == c then (if norm then 0 else (selfHit (absFn fn) ua qc).getD 0)
             else pairScale fn cfg qc tc + (if mode == Mode.forward || fnName == "allbyall" then 0 else pairScale fn cfg tc qc)
           pure s!"{showLabels f}#{compareVals tol tolOut f.vals scale impl}"
+    | _, _ => none
+  -- kd-tree cache history:  <lazy flags 0/1,...>|ev;ev;...   (flags of the invalidating methods come from Gen/DpTree)
+  | "hist", [objs, evs] => do
+    let ls ← (sepList "," objs).mapM parseBool
+    let es ← (sepList ";" evs).mapM parseEv
+    let s0 : List (Obj Nat) := ls.map fun l => ⟨0, none, l⟩
+    let logs := runLog Gen.DpTree.inval s0 es
+    let fin := (DpCache.run Gen.DpTree.inval s0 es).1
+    pure (";".intercalate (logs.map fun l => ",".intercalate (l.map fun (u, c) => s!"{u}:{c}")) ++ "#" ++
+          ",".intercalate (fin.map showObj) ++ "#" ++ (if safe Gen.DpTree.inval es then "safe" else "unsafe"))
+  | "invalflags", _ =>
+    pure (",".intercalate (Method.all.map fun m => s!"{m.name}:{match Gen.DpTree.invalOpt m with | some true => "1" | some false => "0" | none => "?"}"))
+  -- nblast_smart: value of every cell under the implementation's own mask, and the mask criterion='score' documents
+  | "smart", [tab, hd, q, t, tols, mask, impl] =>
+    match words hd, words tols with
+    | [ua, norm, bound, mode, thr], [tol, tolOut, exact] => do
+      let tb ← parseTable tab; let ua ← parseBool ua; let norm ← parseBool norm; let b ← parseBound bound
+      let mode ← parseMode mode
+      let thr ← parseBound thr
+      let exact ← parseBool exact
+      let q ← parseNeurons q; let t ← parseNeurons t
+      let tol ← parseRat tol; let tolOut ← parseRat tolOut
+      let mask ← parseMask mask
+      let impl ← parseImplVals impl
+      match tb with
+      | none => pure "RAISE"
+      | some tb =>
+        let cfg : Cfg := ⟨ua, norm, b⟩
+        let fn : ScoreFn := tb.call
+        match smartVals fn cfg mode q t mask, smartVals fn cfg mode q t (q.map fun _ => t.map fun _ => false) with
+        | some vals, some pre =>
+          let scale := fun (r c : Nat) =>
+            let sel := ((mask[r]?).bind (·[c]?)).getD false
+            let qc := ((q[r]?).map (·.pts)).getD []
+            let tc := ((t[c]?).map (·.pts)).getD []
+            let qc := if sel then qc else downsampleSimple 10 qc
+            let tc := if sel then tc else downsampleSimple 10 tc
+            pairScale fn cfg qc tc + (if mode == Mode.forward then 0 else pairScale fn cfg tc qc)
+          let crit := match thr with
+            | none => "-"
+            | some th => ";".intercalate (pre.map fun (row : List Rat) => ",".intercalate (row.map fun (v : Rat) =>
+                if exact && v == th then "T"   -- `scr >= t`; sums of dyadic cells are exact in floating point
+                else if absR (v - th) ≤ tol * maxR 1 (absR v) then "E" else if th ≤ v then "T" else "F"))
+          pure s!"{compareVals tol tolOut vals scale impl}#{crit}"
+        | _, _ => pure "UNDEF"
     | _, _ => none
   -- exact model values (used by replay / debugging)
   | "nblastval", [tab, hd, q, t] =>
